@@ -62,6 +62,8 @@ func main() {
 				continue
 			}
 			switch {
+			case i == 7 || i == 13:
+				hist.GenVerbStory(r, &c)
 			case i%5 == 3:
 				c.Methods = hist.MethodPool[:1]
 				hist.GenPartial(r, &c, 3, 5)
@@ -196,6 +198,22 @@ func check(run *kit.Run, c hist.Case) {
 					return
 				}
 				run.Count("txn_view_comparisons", 1)
+				// a snapshot of the open transaction (and a snapshot of that snapshot) shows the same state, Len included
+				if i%4 == 1 {
+					if sn := w.Txn.Snapshot(); sn != nil {
+						if want, got := w.Expect(w.Pending), w.Observe(sn); want != got {
+							run.Violate("txn-snapshot-view|"+id[:min(len(id), 300)]+fmt.Sprint(i), fmt.Sprintf("after op #%d (%s) a Snapshot() of the open transaction differs from the map model\n%s\npool: %v\nhistory: %s", i, op, hist.Diff(want, got), c.Pool, c.String()), c)
+							return
+						}
+						if sn2 := sn.Snapshot(); sn2 != nil {
+							if want, got := w.Expect(w.Pending), w.Observe(sn2); want != got {
+								run.Violate("txn-snapshot-view|"+id[:min(len(id), 300)]+fmt.Sprint(i), fmt.Sprintf("after op #%d (%s) a snapshot of a snapshot of the open transaction differs from the map model\n%s", i, op, hist.Diff(want, got)), c)
+								return
+							}
+						}
+						run.Count("txn_snapshot_comparisons", 1)
+					}
+				}
 			}
 			// a failed call changes nothing
 			if len(w.Problems) == nprob && failed(w, op, before) && before != "" {
